@@ -21,7 +21,7 @@ RULE = ("two modes. ENUMERATED: for each of N fixed systems (quick 6, thorough 2
         "(schedule signature, event-log digest). Exhaustive over tapes of length L for the chosen systems, not over systems")
 ASSUMPTIONS = wa.ASSUMPTIONS
 REAL_VS_STUB = wa.REAL_VS_STUB
-PROBES = wa.PROBES + ["supplied_and_generated_in_one_system", "enumerated_step_tape", "enumerated_attempt_tape"]
+PROBES = wa.PROBES + ["interior_kept_residues", "start_option", "cycles_option", "supplied_and_generated_in_one_system", "enumerated_step_tape", "enumerated_attempt_tape"]
 SYS_PROFILE = {"shapes": ["linear", "linear", "star", "comb", "ring", "tree"], "maxres": 8, "max_molecules": 4,
                "max_count": 2, "n_entries": (1, 2), "box_modes": ["cubic", "noncubic"], "vsites": False,
                "max_atoms": 2, "density": 0, "nrewind": [1, 2, 3, 4, 5], "maxiter": [0, 1, 2], "p_mi": 1.0,
@@ -46,7 +46,11 @@ def _system(verif_seed, s):
     if key not in _SYS_CACHE:
         job, st = jobgen.base_job("C17sys", verif_seed, "sys", s, SYS_PROFILE)
         job["tape"] = {}
-        if s % 2 == 1:
+        if s % 3 == 2:
+            job["spec"]["restypes"].setdefault("RB", dict(job["spec"]["restypes"]["RA"], name="RB",
+                                                          atoms=[dict(a, name="B" + a["name"][1:]) for a in job["spec"]["restypes"]["RA"]["atoms"]]))
+            jobgen.make_interior_kept(job, st.gen)
+        elif s % 2 == 1:
             jobgen.add_coordinates(job, st.gen, {"coord_modes": ["prefix", "prefix", "res", "res_prefix", "meta_prefix"]})
         _SYS_CACHE.clear()
         _SYS_CACHE[key] = job
@@ -58,8 +62,19 @@ def gen_job(verif_seed, tier, index):
     nenum = NSYS[tier] * _per(tier)
     if index >= nenum:
         job, st = jobgen.base_job(PROP, verif_seed, tier, index, SAMPLED_PROFILE)
-        if st.gen.random() < 0.35:
+        r = st.gen.random()
+        if r < 0.15 and len(job["spec"]["restypes"]) >= 2:
+            jobgen.make_interior_kept(job, st.gen)
+        elif r < 0.45:
             jobgen.add_coordinates(job, st.gen, {"coord_modes": ["prefix", "prefix", "res", "res_prefix", "meta_prefix"]})
+        g = st.gen
+        rings = sorted({m["name"] for m in job["spec"]["moltypes"] if m["shape"] == "ring"
+                        and any(n == m["name"] for n, _ in job["spec"]["molecules"])})
+        if rings and g.random() < 0.6:
+            job["opts"]["cycles"] = rings
+            job["opts"]["cycle_tol"] = g.choice([0.0, 0.2])
+        if job.get("coord_text") is None and g.random() < 0.3:
+            jobgen.add_start(job, g)
         job["mode"] = "sampled"
         return job
     s, k = divmod(index, _per(tier))
@@ -83,6 +98,12 @@ def _tag(job, res):
         res["probes"]["enumerated_step_tape"] = 1
     elif job.get("mode") == "enum_attempt":
         res["probes"]["enumerated_attempt_tape"] = 1
+    if job.get("interior_kept"):
+        res["probes"]["interior_kept_residues"] = 1
+    if job["opts"].get("start"):
+        res["probes"]["start_option"] = 1
+    if job["opts"].get("cycles"):
+        res["probes"]["cycles_option"] = 1
     return wa.has_fault_symbol(res)
 
 
